@@ -627,3 +627,61 @@ func probeAgreement(c *Ctx, fn *ssa.Function, prefix string) {
 		}
 	}
 }
+
+// isFormattingCall: fmt.* and logger calls — they render values into text and take no part in the behaviour a rule is about.
+func isFormattingCall(ci ssa.CallInstruction) bool {
+	n := calleeName(ci)
+	return strings.HasPrefix(n, "fmt.") || strings.HasPrefix(n, "invoke:ngo/log.Logger.") || strings.HasPrefix(n, "log.") || strings.HasPrefix(n, "invoke:log.")
+}
+
+// onlyFormatted: this use of a value (one referrer) ends, through interface boxing and variadic argument
+// slices, only in formatting / logging calls.
+func onlyFormatted(r ssa.Instruction, depth int) bool {
+	if depth > 6 {
+		return false
+	}
+	all := func(v ssa.Value) bool {
+		refs := v.Referrers()
+		if refs == nil {
+			return true
+		}
+		for _, rr := range *refs {
+			if !onlyFormatted(rr, depth+1) {
+				return false
+			}
+		}
+		return true
+	}
+	switch x := r.(type) {
+	case *ssa.DebugRef:
+		return true
+	case *ssa.MakeInterface:
+		return all(x)
+	case *ssa.ChangeInterface:
+		return all(x)
+	case *ssa.Slice:
+		return all(x)
+	case *ssa.Store:
+		// element of a variadic argument array
+		if ia, ok := x.Addr.(*ssa.IndexAddr); ok {
+			if al, ok := ia.X.(*ssa.Alloc); ok {
+				for _, ar := range *al.Referrers() {
+					switch y := ar.(type) {
+					case *ssa.IndexAddr:
+					case *ssa.Slice:
+						if !all(y) {
+							return false
+						}
+					default:
+						return false
+					}
+				}
+				return true
+			}
+		}
+		return false
+	case ssa.CallInstruction:
+		return isFormattingCall(x)
+	}
+	return false
+}
